@@ -1065,7 +1065,9 @@ class ConfigInformation:
         if run_mode == RunMode.NORMAL:
             other = experiment.CURRENT.submit(self.job)
             if other:
-                # Just returns the other task
+                # Already submitted: this object stands for the registered job
+                self.job = other
+                self.task = self.pyobject
                 return other.config.__xpm__._taskoutput
         else:
             # Show a warning
